@@ -99,6 +99,9 @@ pub struct Shared<F: PrimeField> {
     /// calls for which the prover reported MissingAssignment
     pub missing_reported: usize,
     pub record_events: bool,
+    /// closures return Err(MissingAssignment) as a gadget would (default:
+    /// keep interpreting, to observe the cursor)
+    pub propagate_missing: bool,
 }
 
 impl<F: PrimeField> Shared<F> {
@@ -113,6 +116,7 @@ impl<F: PrimeField> Shared<F> {
             steps: 0,
             missing_reported: 0,
             record_events: true,
+            propagate_missing: false,
         }
     }
     fn diverge(&mut self, msg: String) {
@@ -512,8 +516,12 @@ pub fn step_prover<'g, G: AffineRepr>(
                 let r = cs.specify_randomized_constraints(move |rcs| {
                     let mut s = shc.borrow_mut();
                     s.model.begin_phase2();
+                    let before = s.missing_reported;
                     for op in &block {
                         exec_op(rcs, op, &mut s);
+                        if s.propagate_missing && s.missing_reported > before {
+                            return Err(R1CSError::MissingAssignment);
+                        }
                     }
                     Ok(())
                 });
@@ -561,8 +569,12 @@ pub fn drive_verifier<'t, G: AffineRepr>(
                 let r = cs.specify_randomized_constraints(move |rcs| {
                     let mut s = shc.borrow_mut();
                     s.model.begin_phase2();
+                    let before = s.missing_reported;
                     for op in &block {
                         exec_op(rcs, op, &mut s);
+                        if s.propagate_missing && s.missing_reported > before {
+                            return Err(R1CSError::MissingAssignment);
+                        }
                     }
                     Ok(())
                 });
